@@ -14,7 +14,7 @@ FUNCTIONS = ['emd.sift.get_next_imf_mask', 'emd.sift.mask_sift', 'emd.sift.get_m
              'emd.sift.get_next_imf (shared with the specification; its own semantics are C04)']
 BOUNDS = {
     'quick': 'N = 6 symbolic samples in [-8,8]; get_next_imf_mask vs the masking rule for mask frequencies {0.3, 0.125}, symbolic amplitude in (0,4] '
-             '(1 phase) and amplitude 0.5 (2 phases), 1..2 worker processes; mask_sift: frequency ladder z/step^i for step factors {2,3}, user lists, '
+             '(1 phase) and amplitude 0.5 (2 phases; 3 phases on 2 workers, time-boxed), 1..2 worker processes; mask_sift: frequency ladder z/step^i for step factors {2,3}, user lists, '
              'zero-crossing source, amplitude modes {abs, ratio_sig, ratio_imf} with scalar and per-IMF amplitudes, returned frequencies; zero amplitude',
     'thorough': '3 and 4 phases, more frequencies, 3 IMFs, amplitude arrays in every mode',
 }
@@ -36,6 +36,7 @@ def configs(tier):
     q = tier == 'quick'
     out = [('gnim-z0.3-1phase-ampsym-P1', {'kind': 'gnim', 'N': 6, 'z': 0.3, 'nphases': 1, 'amp': 'sym', 'P': 1}),
            ('gnim-z0.125-2phase-amp0.5-P2', {'kind': 'gnim', 'N': 6, 'z': 0.125, 'nphases': 2, 'amp': 0.5, 'P': 2, '_budget_s': 40 if q else 400}),
+           ('gnim-z0.3-3phase-amp0.5-P2', {'kind': 'gnim', 'N': 6, 'z': 0.3, 'nphases': 3, 'amp': 0.5, 'P': 2, '_budget_s': 40 if q else 400}),
            ('zeroamp-z0.3', {'kind': 'zero', 'N': 6, 'z': 0.3, 'nphases': 2})]
     if not q:
         out += [('gnim-z0.05-3phase-amp1-P3', {'kind': 'gnim', 'N': 6, 'z': 0.05, 'nphases': 3, 'amp': 1.0, 'P': 3, '_budget_s': 400}),
